@@ -107,6 +107,9 @@ theorem step_shape : Shape s o cfg code st (step s o cfg env code st) := by
     by_cases h : op = 0x36
     · rw [if_pos h]; shape_leaf
     rw [if_neg h]; clear h
+    by_cases h : op = 0x38
+    · rw [if_pos h]; shape_leaf
+    rw [if_neg h]; clear h
     by_cases h : op = 0x35
     · rw [if_pos h]; shape_branch
     rw [if_neg h]; clear h
@@ -143,9 +146,9 @@ theorem step_shape : Shape s o cfg code st (step s o cfg env code st) := by
     shape_leaf
 
 /-- paths only grow -/
-theorem step_next_path {st' : SState} (h : st' ∈ (step s o cfg env code st).next) :
+theorem shape_next_path {out : StepOut} (hsh : Shape s o cfg code st out) {st' : SState} (h : st' ∈ out.next) :
     ∃ ext, st'.path = st.path ++ ext := by
-  rcases step_shape (s := s) (o := o) (cfg := cfg) (env := env) (code := code) (st := st) with
+  rcases hsh with
     ⟨st1, ext, e, hp, _⟩ | ⟨e0, e, hp⟩ | ⟨st0, target, c, nextPc, e, hp, _⟩
   · rw [e] at h
     simp only [contOut, List.mem_singleton] at h
@@ -157,6 +160,10 @@ theorem step_next_path {st' : SState} (h : st' ∈ (step s o cfg env code st).ne
       exact ⟨ext, by rw [he, ← hp.1]⟩
     · obtain ⟨ext, he⟩ := addCond_path_ext s { st0 with pc := nextPc, visits := vis' } (s.b (.not (s.b c)))
       exact ⟨ext, by rw [he, ← hp.1]⟩
+
+theorem step_next_path {st' : SState} (h : st' ∈ (step s o cfg env code st).next) :
+    ∃ ext, st'.path = st.path ++ ext :=
+  shape_next_path step_shape h
 
 /-- an end state carries the path of the state that ended -/
 theorem step_end_path {e : EndState} (h : e ∈ (step s o cfg env code st).ends) : e.st.path = st.path := by
@@ -170,8 +177,9 @@ theorem step_end_path {e : EndState} (h : e ∈ (step s o cfg env code st).ends)
     rw [(jumpi_ends h).2]; exact hp.1
 
 /-- an end state carries the concretization map and the storage maps of the state that ended -/
-theorem step_end_keeps {e : EndState} (h : e ∈ (step s o cfg env code st).ends) : Keeps e.st st := by
-  rcases step_shape (s := s) (o := o) (cfg := cfg) (env := env) (code := code) (st := st) with
+theorem shape_end_keeps {out : StepOut} (hsh : Shape s o cfg code st out) {e : EndState} (h : e ∈ out.ends) :
+    Keeps e.st st := by
+  rcases hsh with
     ⟨st1, ext, e', hp, _⟩ | ⟨e0, e', hp⟩ | ⟨st0, target, c, nextPc, e', hp, _⟩
   · rw [e'] at h; simp [contOut] at h
   · rw [e'] at h
@@ -179,6 +187,9 @@ theorem step_end_keeps {e : EndState} (h : e ∈ (step s o cfg env code st).ends
     subst h; exact hp
   · rw [e'] at h
     rw [(jumpi_ends h).2]; exact hp
+
+theorem step_end_keeps {e : EndState} (h : e ∈ (step s o cfg env code st).ends) : Keeps e.st st :=
+  shape_end_keeps step_shape h
 
 /-- only `jumpi` records bounded loops, and only its own jump id -/
 theorem step_bounded_cases :
